@@ -227,15 +227,23 @@ fn user_entity(mask: u64, shift: u32, id_len: usize, text_len: usize, fill: u64)
     }
 }
 
+/// COSE algorithm identifiers an authenticator may put in its responses: the two the crate's request
+/// filter knows, other registered ones, and the CBOR integer-width boundaries.
+const ALG_LATTICE: [i32; 20] = [-7, -8, -257, -7, -8, -35, -36, -65535, 0, 1, 23, 24, -24, -25, 255, 256, -256, 65536, i32::MAX, i32::MIN];
+
+fn alg(fill: u64, i: u64) -> i32 {
+    ALG_LATTICE[((fill >> 9) as usize).wrapping_add(i as usize * 7) % ALG_LATTICE.len()]
+}
+
 fn att_stmt(kind: u64, sig_len: usize, cert_len: usize, fill: u64) -> Option<ctap2::AttestationStatement> {
     match kind & 3 {
         0 => None,
         1 => Some(ctap2::AttestationStatement::None(ctap2::NoneAttestationStatement {})),
-        2 => Some(ctap2::AttestationStatement::Packed(ctap2::PackedAttestationStatement { alg: -7, sig: hbytes(fill, 50, sig_len), x5c: None })),
+        2 => Some(ctap2::AttestationStatement::Packed(ctap2::PackedAttestationStatement { alg: alg(fill, 3), sig: hbytes(fill, 50, sig_len), x5c: None })),
         _ => {
             let mut v = HVec::new();
             v.push(hbytes(fill, 51, cert_len)).ok();
-            Some(ctap2::AttestationStatement::Packed(ctap2::PackedAttestationStatement { alg: -8, sig: hbytes(fill, 50, sig_len), x5c: Some(v) }))
+            Some(ctap2::AttestationStatement::Packed(ctap2::PackedAttestationStatement { alg: alg(fill, 4), sig: hbytes(fill, 50, sig_len), x5c: Some(v) }))
         }
     }
 }
@@ -315,7 +323,7 @@ pub fn build(spec: &RespSpec) -> Response {
             if next() {
                 let mut v = wa::FilteredPublicKeyCredentialParameters(Default::default());
                 for i in 0..(p[1] % 3) {
-                    v.0.push(wa::KnownPublicKeyCredentialParameters { alg: if i == 0 { -7 } else { -8 } }).ok();
+                    v.0.push(wa::KnownPublicKeyCredentialParameters { alg: alg(f, i as u64) }).ok();
                 }
                 r.algorithms = Some(v);
             }
